@@ -181,6 +181,37 @@ CHECKS = {
                     "decoded structure == the byte structure (numbering, 360 azimuths, declared zone counts, each zone from its own "
                     "4 bytes) and Err iff the body ends early, for every input.",
     ),
+    "C14": dict(
+        verus=[dict(unit="summarize")],
+        trusted_base=STD_TRUST + [
+            "R-enumerate: `for (i, m) in xs.iter().enumerate()` is verified as `for i in 0..xs.len() { let m = &xs[i]; … }` "
+            "(Verus has no model of core::iter::Enumerate and the orphan rule forbids adding one)",
+            "R-closure-inline: the local FnMut closure increment_count is beta-reduced at its seven call sites (body copied "
+            "verbatim; Verus closures cannot capture &mut)",
+            "R-shim: `groups.iter().rev().any(|g| radial group of elevation e)` is the assumed contract any_prior(groups, e) "
+            "(the rule matches the exact token sequence; any edit of it makes the unit undecided, not passed)",
+            "std HashMap<String, usize> looked up by &str: String is a lawful hash key, and Borrow<str> lookups agree with the "
+            "key whose characters are equal (axioms axiom_string_key_model, axiom_str_borrow_*, axiom_mk_string_view, axiom_string_ext)",
+            "derive(Hash, Eq) on the fieldless enum VolumeCoveragePattern is a lawful hash key (axiom_vcp_key_model)",
+            "chrono: DateTime<Utc> carries a millisecond view; PartialOrd compares it; timestamp_millis returns it (stand-in type)",
+            "MessageHeader::date_time is the uninterpreted hdr_time(header) (what it is: C08/C10 Kani harnesses)",
+            "extract_rda_status_info / extract_vcp_info are uninterpreted functions of their message (their content is not part of C14)",
+            "function emitted as summarize_messages (R-rename: a parameter may not shadow the function name in a Verus contract)",
+        ],
+        not_decided=["the content of RDAStatusInfo / VCPInfo (formatting helpers) and the Display impls of the summary types",
+                     "messages whose volume block names a VCP number outside the six the crate defines: "
+                     "VolumeDataBlock::volume_coverage_pattern() panics there, so summarize::messages panics too (precondition "
+                     "known_vcp; outside the property's stated domain, reported in DESIGN.md section 9.5)"],
+        explanation="summarize::messages extracted verbatim (three stated rewrites) and proved for every message list with no length "
+                    "bound: the groups tile 0..n in order without gap or overlap; count == span; each group is a run of one "
+                    "message type and (radial data) one elevation; status and VCP messages stand alone; adjacent groups could not "
+                    "have been merged; is_continued iff an earlier radial group has the same elevation number; first/last azimuths "
+                    "and times are those of the first/last member; per-group data-type counts equal the number of members carrying "
+                    "the block, with no other keys; latest/earliest collection time are the max/min over timestamped radial and "
+                    "status messages (earliest over those after the Unix epoch, as the code filters); the VCP set is exactly the "
+                    "set of patterns named by volume blocks.  Domain precondition: contents variant agrees with the header type "
+                    "code (what decode_message_contents produces, unit framing) and VCP numbers are among the crate's six.",
+    ),
     "C01": dict(
         verus=[dict(unit="volume_scan"), dict(unit="framing"), dict(unit="sweep")],
         trusted_base=STD_TRUST + [
@@ -329,9 +360,6 @@ CHECKS = {
 }
 
 NOT_APPLICABLE = {
-    "C14": "summarize::messages is one 200-line function over Enumerate/any/FnMut-capturing closures/HashMap/HashSet/chrono: "
-           "Verus rejects the constructs (rewriting would verify a look-alike) and Kani did not finish on 3 symbolic "
-           "messages in 20 min / 5.7 GB; no contract within reach of either engine decides it (DESIGN.md section 6)",
     "C17": "behaviour lives in reqwest (async HTTP) and xml-rs behind a network boundary; no function contract within reach "
            "of Verus or Kani expresses 'for every bucket content' (DESIGN.md section 6)",
     "C18": "whole-history property over schedules, virtual time, retries and channels in an async loop; contracts here have "
